@@ -231,6 +231,10 @@ def run(tier="quick", seed=0, jobs=16):
 
 def replay(path):
     d = json.load(open(path))
+    if "what" in d.get("case", {}) and "intg" in d.get("case", {}):
+        r = nodense_worker(d["case"])
+        print(json.dumps(r, indent=1))
+        return 1 if "values" in r and any(not math.isfinite(a) for a in r["values"]) else 0
     dis, _, _ = run_cases([(d["case"], d["points"])], "C08r", 1)
     print(json.dumps(dis[:1], indent=1, default=str)[:4000] if dis else "replay: agrees")
     return 1 if dis else 0
